@@ -144,6 +144,8 @@ func (s *Service) handleSubmitSyncCommitteeMessagesError(ctx context.Context,
 		}
 		for i := range len(resp.Failures) {
 			switch {
+			case resp.Failures[i] == nil:
+				s.log.Trace().Str("provider", provider).Int("index", i).Msg("Empty failure entry; treating as real lighthouse error")
 			case strings.HasPrefix(resp.Failures[i].Message, "Verification: PriorSyncCommitteeMessageKnown"):
 				s.log.Trace().Str("provider", provider).Int("index", resp.Failures[i].Index).Msg("Message already received for that slot; ignoring")
 				allowedFailures++
@@ -163,6 +165,8 @@ func (s *Service) handleSubmitSyncCommitteeMessagesError(ctx context.Context,
 		}
 		for i := range len(resp.Failures) {
 			switch {
+			case resp.Failures[i] == nil:
+				s.log.Trace().Str("provider", provider).Int("index", i).Msg("Empty failure entry; treating as real teku error")
 			case resp.Failures[i].Message == "Ignoring sync committee message as a duplicate was processed during validation":
 				s.log.Trace().Str("provider", provider).Str("index", resp.Failures[i].Index).Msg("Message already received for that slot; ignoring")
 				allowedFailures++
